@@ -61,4 +61,51 @@ theorem scratch_fuel {p : Prog} (env : Nat → Int) (hwf : WF p = true) :
           simp only [wfNode, Bool.and_eq_true] at hw
           exact evalPure_congr (fun j hj => ih g j (by omega) (by omega)) b hw.1
 
+/-! ## evaluation with a snapshot for the untracked reads -/
+
+/-- evaluate a body: tracked reads from `ρ`, the k-th executed untracked read from the k-th element
+of the snapshot list (returns the unused rest of the list) -/
+def evalSnap (ρ : Nat → Int) : Expr → List Int → Int × List Int
+  | .lit n, U => (n, U)
+  | .rd true x, U => (ρ x, U)
+  | .rd false _, U => match U with | v :: U' => (v, U') | [] => (0, [])
+  | .add a b, U =>
+    let r1 := evalSnap ρ a U
+    let r2 := evalSnap ρ b r1.2
+    (r1.1 + r2.1, r2.2)
+  | .mulc k a, U =>
+    let r1 := evalSnap ρ a U
+    (k * r1.1, r1.2)
+  | .ite c t e, U =>
+    let r1 := evalSnap ρ c U
+    if r1.1 != 0 then evalSnap ρ t r1.2 else evalSnap ρ e r1.2
+  | .seq a b, U =>
+    let r1 := evalSnap ρ a U
+    evalSnap ρ b r1.2
+  | .wr _ a, U => evalSnap ρ a U
+
+theorem evalSnap_tracked (ρ : Nat → Int) : ∀ (e : Expr) (U : List Int), e.noUntracked = true →
+    evalSnap ρ e U = (evalPure ρ e, U)
+  | .lit _, _, _ => rfl
+  | .rd t x, U, h => by
+    simp only [Expr.noUntracked] at h; subst h; rfl
+  | .add a b, U, h => by
+    simp only [Expr.noUntracked, Bool.and_eq_true] at h
+    simp only [evalSnap, evalSnap_tracked ρ a U h.1, evalSnap_tracked ρ b U h.2, evalPure]
+  | .mulc k a, U, h => by
+    simp only [Expr.noUntracked] at h
+    simp only [evalSnap, evalSnap_tracked ρ a U h, evalPure]
+  | .ite c t e, U, h => by
+    simp only [Expr.noUntracked, Bool.and_eq_true] at h
+    simp only [evalSnap, evalSnap_tracked ρ c U h.1.1, evalPure]
+    split
+    · exact evalSnap_tracked ρ t U h.1.2
+    · exact evalSnap_tracked ρ e U h.2
+  | .seq a b, U, h => by
+    simp only [Expr.noUntracked, Bool.and_eq_true] at h
+    simp only [evalSnap, evalSnap_tracked ρ a U h.1, evalSnap_tracked ρ b U h.2, evalPure]
+  | .wr _ a, U, h => by
+    simp only [Expr.noUntracked] at h
+    simp only [evalSnap, evalSnap_tracked ρ a U h, evalPure]
+
 end Leptos.Reactive
